@@ -140,6 +140,13 @@ pub fn oracle(p: &MuxFaultPlan, o: &MuxOutcome) -> Vec<Violation> {
                 // elsewhere and neither corrupted nor stalled.
                 let refused = rec.requests_not_sent.contains(&r.id) || rec.stream_for(r.id).map_or(true, |s| s.refused_by_goaway);
                 if refused && !rec.goaways.is_empty() { continue; }
+                // RST_STREAM(REFUSED_STREAM) promises that nothing was processed (RFC 9113 §8.7): the
+                // request is retryable, provided the promise is true
+                if rec.stream_for(r.id).map_or(false, |s| s.recv_rst == Some(7) && s.status.is_none()) {
+                    let seen = crate::muxscn::backend_obs(&o.backends[0], r.id).seen;
+                    if seen > 0 { v.push(Violation::new("sibling_harmed", key("refused_but_forwarded"), format!("sibling #{}: RST_STREAM(REFUSED_STREAM) although the request reached the backend {seen} time(s)", r.id))); }
+                    continue;
+                }
                 if !obs.answered { v.push(Violation::new("sibling_harmed", key("no_answer"), format!("sibling #{}: no response (aborted={:?}, connection gone={conn_gone})", r.id, obs.aborted))); continue; }
                 if obs.sim_id != Some(r.id) || obs.status != Some(200) { v.push(Violation::new("sibling_harmed", key(&format!("status={}", obs.status.unwrap_or(0))), format!("sibling #{}: status {:?} sim_id {:?}", r.id, obs.status, obs.sim_id))); continue; }
                 if let Some(off) = obs.first_bad { v.push(Violation::new("sibling_harmed", key("corrupted"), format!("sibling #{}: body differs at offset {off}: {:02x?}", r.id, &obs.bad_bytes[..obs.bad_bytes.len().min(32)]))); }
